@@ -86,6 +86,19 @@ CHECKS["C19"] = dict(
     note=_GATE_NOTE, technique="Coq proof over decision-layer model + three-way differential runs of the real entry points", design_ref="§23",
 )
 
+CHECKS["C26"] = dict(
+    category="proof",
+    text=("Coq theorem C26_atomic_and_faithful proves for every content, permission mode, suffix setting and every fault (each operation of "
+          "the write path raising, or the process dying before/after it, with any prefix written) that the target holds the complete original or "
+          "the complete new content with the original mode, a suffixed write never touches its input, a raised fault leaves no temp file and "
+          "success is faithful; C26_multi_file_* lift this to sequences of files. The model is tied to _safe_create_replace_file by fault "
+          "enumeration on the real function (each primitive made to raise, and os._exit before/after each in a subprocess) x modes x suffix x "
+          "encodings, plus natural UnicodeEncodeError, a 3-file run with a failing move, and BOM/mode/suffix end to end through `sqlfluff fix`."),
+    note=("Trusted: Coq kernel, hand model Model/AtomicWrite.v, the fault-injection wrappers; assumes os.rename atomicity within a directory and "
+          "that os.remove in the handler succeeds. Temp-file content after a process death is not claimed (buffering). No axioms."),
+    technique="Coq proof over fault model + exhaustive fault-enumeration correspondence on the real write path", design_ref="§30",
+)
+
 NOT_YET = "no check built yet in this round (planned: see DESIGN.md section for this property)"
 
 
